@@ -4102,7 +4102,12 @@ def plain_column_projection(expr, parent, dependents, additional_columns=None):
             _is_column_keyed(op)
             # a one-partition Series that is broadcast against the DataFrame,
             # e.g. df.fillna(df.mean()); it would not be against a Series
-            or (isinstance(op, Expr) and op.ndim == 1 and expr._broadcast_dep(op))
+            or (
+                isinstance(op, Expr)
+                and op.ndim == 1
+                and isinstance(expr, Blockwise)
+                and expr._broadcast_dep(op)
+            )
             for op in expr.operands[1:]
         )
     ):
